@@ -665,20 +665,12 @@ def np_unravel_index(eng, args, kwargs):
 _prev_cast = narr.cast
 
 
-<<<<<<< HEAD
 def cast(eng, x, kind, *more, **kw):
-=======
-def cast(eng, x, kind, *more, **kw):  # narr.cast has grown optional dtype arguments: passed through
->>>>>>> w4-g-c16
     # +-inf has no real value: it is kept as the float itself (only np.argmin above understands it; any arithmetic on
     # it raises inside the engine, i.e. a machinery error, never a wrong proof)
     if _is_inf(x) and kind == "real":
         return x
-<<<<<<< HEAD
     return _prev_cast(eng, x, kind, *more, **kw)  # narr.cast also takes the target / source dtypes (dtype-faithful casts)
-=======
-    return _prev_cast(eng, x, kind, *more, **kw)
->>>>>>> w4-g-c16
 
 
 # ----------------------------------------------- obj.__getattribute__(name)
